@@ -34,6 +34,13 @@ def build(tier, known):
         hs.append(E2Spec(f'e2_c08_{tag}_n{n}', 'C08Value', params, functions=FUNCS,
                          bound=f'{dom}; length exactly {n}; symbolic current line L in a document of T lines; every feasible MIR path pair explored',
                          claim=CLAIM, native=('data', 'n_c08_value'), parts=(16 if n >= 6 else (8 if n == 5 else 1)), timeout=900 if q else 7200))
+    hs.append(Harness('n_attr_text', 'data', 'parser.rs', '', functions=[], bound='', claim='', role='native'))
+    for n in range(0, (6 if q else 8) + 1):
+        hs.append(E2Spec(f'e2_c08_attrtext_n{n}', 'AttrText', dict(n=n, mode='relational'),
+                         functions=['parser::ArxmlParser::parse_attribute_text', 'parser::ArxmlParser::parse_character_data', 'parser::ArxmlParser::check_version', 'parser::ArxmlParser::optional_error'],
+                         bound=f'all ASCII attribute texts of length exactly {n}; element type with two attributes (string-typed, unsigned-integer-typed) with symbolic names, required flags and version masks; attribute-name lookup uninterpreted; any single-bit file version',
+                         claim='strict Ok <=> lenient Ok without warnings, same attributes; first lenient warning = strict error; strict Ok => every required attribute present and every attribute listed for the element with a version mask containing the file version',
+                         native=('data', 'n_attr_text'), parts=(16 if n >= 5 else (4 if n == 4 else 1)), timeout=900 if q else 7200))
     info = dict(
         assumptions=['E2 library models (mirsym/models.py) are trusted and validated against the native build',
                      'the pattern validator, f64 parsing and the enum item lookup are uninterpreted deterministic functions: the claim holds for every validator / table'],
